@@ -101,6 +101,50 @@ fn check_exp1(out: &mut Out, id: &str, key: &str, what: &str, xs: &[f64]) {
 
 // ---------------------------------------------------------------- Gaussian targets with known moments
 
+/// a user-defined proposal that consumes exactly ONE generator word per step (so that two generators seeded alike
+/// stay in lock-step for ever) and keeps a log of the uniforms it drew
+#[derive(Clone, Debug)]
+struct UniWalk {
+    rng: SmallRng,
+    log: Vec<f64>,
+    w: f64,
+}
+impl Proposal<f64, f64> for UniWalk {
+    fn sample(&mut self, current: &[f64]) -> Vec<f64> {
+        let u: f64 = rand::Rng::random(&mut self.rng);
+        self.log.push(u);
+        vec![current[0] + self.w * (u - 0.5)]
+    }
+    fn logp(&self, _from: &[f64], _to: &[f64]) -> f64 {
+        0.0
+    }
+    fn set_seed(mut self, seed: u64) -> Self {
+        self.rng = SmallRng::seed_from_u64(seed);
+        self
+    }
+}
+#[derive(Clone, Debug)]
+struct StdNormal1;
+impl Target<f64, f64> for StdNormal1 {
+    fn unnorm_logp(&self, x: &[f64]) -> f64 {
+        -0.5 * x[0] * x[0]
+    }
+}
+/// sample correlation of two equally long sequences at a lag (b shifted by `lag`)
+fn xcorr(a: &[f64], b: &[f64], lag: i64) -> f64 {
+    let n = a.len().min(b.len()) as i64;
+    let (ia, ib, len) = if lag >= 0 { (0, lag, n - lag) } else { (-lag, 0, n + lag) };
+    if len < 10 {
+        return 0.0;
+    }
+    let xa = &a[ia as usize..(ia + len) as usize];
+    let xb = &b[ib as usize..(ib + len) as usize];
+    let (ma, mb) = (xa.iter().sum::<f64>() / len as f64, xb.iter().sum::<f64>() / len as f64);
+    let cov: f64 = xa.iter().zip(xb).map(|(x, y)| (x - ma) * (y - mb)).sum();
+    let (va, vb): (f64, f64) = (xa.iter().map(|x| (x - ma) * (x - ma)).sum(), xb.iter().map(|y| (y - mb) * (y - mb)).sum());
+    cov / (va * vb).sqrt().max(1e-300)
+}
+
 #[derive(Clone, Debug)]
 struct Gauss {
     mean: Vec<f64>,
@@ -161,6 +205,18 @@ impl Gauss {
     fn any(&self) -> AnyTarget {
         AnyTarget::GaussD { mean: self.mean.clone(), prec: self.prec.clone() }
     }
+    /// largest eigenvalue of the precision matrix (power iteration): leapfrog is stable for eps < 2 / sqrt(lambda_max)
+    fn prec_lambda_max(&self) -> f64 {
+        let d = self.d();
+        let mut v = vec![1.0; d];
+        let mut lam = 1.0;
+        for _ in 0..200 {
+            let w: Vec<f64> = (0..d).map(|i| (0..d).map(|j| self.prec[i * d + j] * v[j]).sum::<f64>()).collect();
+            lam = w.iter().map(|x| x * x).sum::<f64>().sqrt();
+            v = w.iter().map(|x| x / lam).collect();
+        }
+        lam
+    }
 }
 #[derive(Clone)]
 struct GaussT(AnyTarget);
@@ -182,6 +238,13 @@ impl Conditional<f64> for GaussCond {
         let z: f64 = rand_distr::Distribution::sample(&rand_distr::StandardNormal, &mut self.rng);
         self.g.mean[i] - s / pii + z / pii.sqrt()
     }
+}
+
+/// a common start far from the bulk (mean + 4 sd in every coordinate): after a burn-in many times the mixing time of
+/// these well-conditioned Gaussians a working kernel has forgotten it, a kernel that barely moves has not
+fn displaced_start(g: &Gauss) -> Vec<f64> {
+    let d = g.d();
+    (0..d).map(|i| g.mean[i] + 4.0 * g.cov[i * d + i].sqrt()).collect()
 }
 
 /// per-chain averages → z-scores against the truth; chains[c][t][k]
@@ -245,6 +308,53 @@ pub fn run(out: &mut Out) {
                     let x32 = vec![0.0f32; 4];
                     let noise32: Vec<f64> = (0..3000).flat_map(|_| p32.sample(&x32).into_iter().map(|y| y as f64 / 0.4f32 as f64).collect::<Vec<_>>()).collect();
                     check_normal(out, &id, "C06:proposal-noise-law", "IsotropicGaussian<f32> proposal noise is not i.i.d. N(0, std^2)", &noise32);
+                });
+            }
+        }
+        // mutual independence of the streams of a seeded multi-chain MH sampler: proposal draws vs acceptance draws,
+        // within a chain and across chains, at lags -1, 0, 1 (a proposal that uses one word per step keeps colliding
+        // generators in lock-step, so a seed collision shows up as a correlation of exactly 1)
+        {
+            let id = out.fresh_id("law-mh-indep");
+            if out.selected(&id) {
+                guard_case(out, &id.clone(), "C06:panic", 1, |out| {
+                    let n_chains = 8usize;
+                    let n_steps = 3000usize;
+                    let seed = match rng.below(3) { 0 => rng.below(1000), 1 => u64::MAX - rng.below(16), _ => rng.next() };
+                    let init: Vec<Vec<f64>> = (0..n_chains).map(|_| vec![rng.normal()]).collect();
+                    let mut s = MetropolisHastings::new(StdNormal1, UniWalk { rng: SmallRng::seed_from_u64(0), log: vec![], w: 2.5 }, init).seed(seed);
+                    let mut us: Vec<Vec<f64>> = vec![vec![]; n_chains];
+                    for _ in 0..n_steps {
+                        for (i, c) in s.chains.iter_mut().enumerate() {
+                            verif_hooks::tl_enable();
+                            c.step();
+                            let ev = verif_hooks::tl_drain();
+                            if let Some(u) = ev.iter().filter_map(|e| e.strip_prefix("mh u=")).map(|s| f64::from_bits(u64::from_str_radix(s.split(' ').next().unwrap(), 16).unwrap())).next() {
+                                us[i].push(u);
+                            }
+                        }
+                    }
+                    let ws: Vec<Vec<f64>> = s.chains.iter().map(|c| c.proposal.log.clone()).collect();
+                    let thr = 6.0 / (n_steps as f64).sqrt();
+                    for i in 0..n_chains {
+                        for j in 0..n_chains {
+                            for lag in [-1i64, 0, 1] {
+                                let mut pairs: Vec<(&str, f64)> = vec![("proposal/acceptance", xcorr(&ws[i], &us[j], lag))];
+                                if i < j {
+                                    pairs.push(("acceptance/acceptance", xcorr(&us[i], &us[j], lag)));
+                                    pairs.push(("proposal/proposal", xcorr(&ws[i], &ws[j], lag)));
+                                }
+                                for (what, r) in pairs {
+                                    out.count("predicate_evaluations");
+                                    if r.abs() > thr {
+                                        out.fail(&id, "C06:mh-stream-independence", "draws of two streams of a seeded Metropolis-Hastings sampler are correlated (they must be mutually independent)", 1,
+                                            format!("{what} draws of chains {i} and {j} at lag {lag}: correlation {r:.4} (n = {n_steps}, threshold {thr:.4}), seed {seed}"));
+                                    }
+                                }
+                            }
+                        }
+                    }
+                    out.count_n("draws_examined", (2 * n_chains * n_steps) as u64);
                 });
             }
         }
@@ -329,6 +439,12 @@ pub fn run(out: &mut Out) {
                     let a = s.run(out.n(2500, 6000) as usize, 0).unwrap();
                     let chains: Vec<Vec<Vec<f64>>> = (0..n_chains).map(|c| (0..a.shape()[1]).map(|t| (0..d).map(|k| a[[c, t, k]]).collect()).collect()).collect();
                     moments_check(out, &id, "MH", &g, &chains);
+                    // ergodicity: the same sampler from a common displaced start, burn-in 2000
+                    let init2: Vec<Vec<f64>> = (0..n_chains).map(|_| displaced_start(&g)).collect();
+                    let mut s2 = MetropolisHastings::new(GaussT(g.any()), IsotropicGaussian::<f64>::new(1.1 / (d as f64).sqrt()), init2).seed(seed ^ 0x5555);
+                    let a2 = s2.run(out.n(1500, 4000) as usize, 2000).unwrap();
+                    let chains2: Vec<Vec<Vec<f64>>> = (0..n_chains).map(|c| (0..a2.shape()[1]).map(|t| (0..d).map(|k| a2[[c, t, k]]).collect()).collect()).collect();
+                    moments_check(out, &id, "MH-displaced-start", &g, &chains2);
                 });
             }
         }
@@ -365,6 +481,12 @@ pub fn run(out: &mut Out) {
                         let v: Vec<f64> = t.to_data().convert::<f64>().to_vec().unwrap();
                         let chains: Vec<Vec<Vec<f64>>> = (0..n_chains).map(|c| (0..steps).map(|k| v[(c * steps + k) * d..(c * steps + k + 1) * d].to_vec()).collect()).collect();
                         moments_check(out, &id, &format!("HMC-{}", $name), &g, &chains);
+                        let init2: Vec<Vec<$T>> = (0..n_chains).map(|_| displaced_start(&g).iter().map(|x| *x as $T).collect()).collect();
+                        let mut s2 = HMC::<$T, $B, AnyTarget>::new(g.any(), init2, 0.25, 5).set_seed(seed ^ 0x5555);
+                        let t2 = s2.run(steps, 400);
+                        let v2: Vec<f64> = t2.to_data().convert::<f64>().to_vec().unwrap();
+                        let chains2: Vec<Vec<Vec<f64>>> = (0..n_chains).map(|c| (0..steps).map(|k| v2[(c * steps + k) * d..(c * steps + k + 1) * d].to_vec()).collect()).collect();
+                        moments_check(out, &id, &format!("HMC-{}-displaced-start", $name), &g, &chains2);
                     });
                 }
             }};
@@ -373,6 +495,41 @@ pub fn run(out: &mut Out) {
             hmc_moments!(f32, B32, "f32");
         } else {
             hmc_moments!(f64, B64, "f64");
+        }
+        // the same with a coarse step (60-75 % of the stability limit, L = 3): a sizeable share of the proposals is
+        // rejected, so whatever a step does differently after a rejection (carried state) shows in the moments
+        macro_rules! hmc_moments_coarse {
+            ($T:ty, $B:ty, $name:expr) => {{
+                let id = out.fresh_id("mom-hmc-coarse");
+                let d = rng.range(1, 3) as usize;
+                let g = random_gauss(&mut rng, d);
+                let init: Vec<Vec<$T>> = (0..n_chains).map(|_| g.draw(&mut rng).iter().map(|x| *x as $T).collect()).collect();
+                let seed = rng.next();
+                let steps = out.n(600, 2000) as usize;
+                let eps = rng.uniform(1.2, 1.5) / g.prec_lambda_max().sqrt();
+                if out.selected(&id) {
+                    guard_case(out, &id.clone(), "C06:panic", 1, |out| {
+                        let mut s = HMC::<$T, $B, AnyTarget>::new(g.any(), init, eps as $T, 3).set_seed(seed);
+                        let t = s.run(steps, 0);
+                        let v: Vec<f64> = t.to_data().convert::<f64>().to_vec().unwrap();
+                        let chains: Vec<Vec<Vec<f64>>> = (0..n_chains).map(|c| (0..steps).map(|k| v[(c * steps + k) * d..(c * steps + k + 1) * d].to_vec()).collect()).collect();
+                        let moved = chains.iter().map(|c| c.windows(2).filter(|w| w[0] != w[1]).count()).sum::<usize>() as f64 / (n_chains * (steps - 1)) as f64;
+                        out.notes.push(format!("HMC-coarse-{}: eps {:.3}, acceptance rate {:.2}", $name, eps, moved));
+                        moments_check(out, &id, &format!("HMC-coarse-{}", $name), &g, &chains);
+                        let init2: Vec<Vec<$T>> = (0..n_chains).map(|_| displaced_start(&g).iter().map(|x| *x as $T).collect()).collect();
+                        let mut s2 = HMC::<$T, $B, AnyTarget>::new(g.any(), init2, eps as $T, 3).set_seed(seed ^ 0x5555);
+                        let t2 = s2.run(steps, 400);
+                        let v2: Vec<f64> = t2.to_data().convert::<f64>().to_vec().unwrap();
+                        let chains2: Vec<Vec<Vec<f64>>> = (0..n_chains).map(|c| (0..steps).map(|k| v2[(c * steps + k) * d..(c * steps + k + 1) * d].to_vec()).collect()).collect();
+                        moments_check(out, &id, &format!("HMC-coarse-{}-displaced-start", $name), &g, &chains2);
+                    });
+                }
+            }};
+        }
+        if rep % 2 == 0 {
+            hmc_moments_coarse!(f64, B64, "f64");
+        } else {
+            hmc_moments_coarse!(f32, B32, "f32");
         }
         macro_rules! nuts_moments {
             ($T:ty, $B:ty, $name:expr) => {{
